@@ -24,6 +24,8 @@ def dispatch (j : Json) : R Json := do
   | "to_mef" => handleToMef j
   | "meta" => handleMeta j
   | "stats" => handleStats j
+  | "logicle" => handleLogicle j
+  | "edges" => handleEdges j
   | "ping" => pure (Json.mkObj [("pong", Json.bool true)])
   | _ => throw s!"unknown op {op}"
 
